@@ -183,6 +183,9 @@ func (z *zmodemTransfer) handleZmodemError(msg string) {
 	}
 
 	z.writeMessage(msg)
+
+	// the server may stay quiet from now on, so do not wait for its output to arm the cleanup
+	z.resetCleanupTimer()
 }
 
 func (z *zmodemTransfer) handleServerOutput(buf []byte) bool {
